@@ -36,12 +36,68 @@ def view(index: RepoIndex, func: Func, cross: Tuple[str, ...] = (),
     node, inlined = inlined_function(index, func, exclude=set(keep), methods=True,
                                      cross=set(cross))
     node = canon_calls(index, func.module, node)
+    node = splice_star_args(node)
     ex = inline_pure_exprs(index, func.module, func.cls, node, keep=tuple(keep))
     if ast.dump(ex) != ast.dump(node):
         node = ex
     out = (node, walk_function(node), inlined)
     _CACHE[key] = out
     return out
+
+
+def splice_star_args(fn: ast.FunctionDef) -> ast.FunctionDef:
+    """`t = (a, b, c); f(*t)` with `t` a local bound once to a tuple / list display and never
+    updated in place is `f(a, b, c)`: the rules read the arguments"""
+    import copy
+    stores: dict = {}
+    touched = set()
+    for n in ast.walk(fn):
+        if isinstance(n, ast.Name) and isinstance(n.ctx, (ast.Store, ast.Del)):
+            stores[n.id] = stores.get(n.id, 0) + 1
+        if isinstance(n, ast.Attribute) and isinstance(n.value, ast.Name) and \
+                isinstance(n.ctx, ast.Load) and n.attr in ('append', 'extend', 'insert', 'pop',
+                                                           'remove', 'sort', 'reverse', 'clear'):
+            touched.add(n.value.id)
+        if isinstance(n, ast.Subscript) and isinstance(n.value, ast.Name) and \
+                isinstance(n.ctx, (ast.Store, ast.Del)):
+            touched.add(n.value.id)
+        if isinstance(n, ast.AugAssign) and isinstance(n.target, ast.Name):
+            touched.add(n.target.id)
+    displays = {}
+    for n in ast.walk(fn):
+        if isinstance(n, ast.Assign) and len(n.targets) == 1 and \
+                isinstance(n.targets[0], ast.Name) and isinstance(n.value, (ast.Tuple, ast.List)) \
+                and stores.get(n.targets[0].id) == 1 and n.targets[0].id not in touched and \
+                not any(isinstance(x, ast.Starred) for x in n.value.elts):
+            displays[n.targets[0].id] = n.value
+    params = {a.arg for a in fn.args.posonlyargs + fn.args.args + fn.args.kwonlyargs}
+    sites = [n for n in ast.walk(fn) if isinstance(n, ast.Call) and any(
+        isinstance(a, ast.Starred) and isinstance(a.value, ast.Name)
+        and a.value.id in displays and a.value.id not in params for a in n.args)]
+    if not sites:
+        return fn
+    # the elements must still mean the same at the call: they are names / attributes of names
+    # that are themselves bound once (or parameters never re-bound)
+    def stable(e) -> bool:
+        return all(stores.get(x.id, 0) <= 1 for x in ast.walk(e) if isinstance(x, ast.Name))
+    new = copy.deepcopy(fn)
+    displays2 = {}
+    for n in ast.walk(new):
+        if isinstance(n, ast.Assign) and len(n.targets) == 1 and \
+                isinstance(n.targets[0], ast.Name) and n.targets[0].id in displays:
+            displays2[n.targets[0].id] = n.value
+    for n in ast.walk(new):
+        if isinstance(n, ast.Call):
+            out = []
+            for a in n.args:
+                if isinstance(a, ast.Starred) and isinstance(a.value, ast.Name) and \
+                        a.value.id in displays2 and a.value.id not in params and \
+                        all(stable(x) for x in displays2[a.value.id].elts):
+                    out.extend(copy.deepcopy(x) for x in displays2[a.value.id].elts)
+                else:
+                    out.append(a)
+            n.args = out
+    return ast.fix_missing_locations(new)
 
 
 def new_imported_helpers(index: RepoIndex, func: Func) -> Tuple[str, ...]:
